@@ -10,6 +10,7 @@ import (
 	"encoding/json"
 	"errors"
 	"fmt"
+	"github.com/opencontainers/go-digest"
 	"io"
 	"math/rand"
 	"os"
@@ -676,6 +677,69 @@ func runCopy(mode string, seed int64, tier string, sc *Script) map[string]any {
 			reg.Close()
 		}
 	}
+	// C02 with no callbacks at all: a Copy that fails on one push, then the same Copy again with
+	// nothing in its way (default options, no OnCopySkipped): the retry completes and tags
+	if mode == "C02" {
+		reps := 20
+		if tier == "thorough" {
+			reps = 400
+		}
+		for i := 0; i < reps; i++ {
+			u := GenDAG(rng, GenCfg{Blobs: 2 + rng.Intn(3), Manifests: 1 + rng.Intn(4), Indexes: true})
+			root := -1
+			for k := len(u.Nodes) - 1; k >= 0; k-- {
+				if u.Nodes[k].Kind.IsManifest() {
+					root = k
+					break
+				}
+			}
+			if root < 0 {
+				continue
+			}
+			closure := downClosure(u, []int{root})
+			var stored []int
+			for _, k := range closure {
+				if u.Nodes[k].Kind != KForeign {
+					stored = append(stored, k)
+				}
+			}
+			if len(stored) < 2 {
+				continue
+			}
+			sc.Case("bare-retry")
+			sc.NonTrivial()
+			src := memory.New()
+			pushAll(ctx, src, u, closure)
+			src.Tag(ctx, u.Nodes[root].Desc, "srcref")
+			dstT := memory.New()
+			// the fault: the push of one node other than the first one copied
+			victim := stored[rng.Intn(len(stored))]
+			fd := &failOnceDst{Target: dstT, dig: u.Nodes[victim].Desc.Digest}
+			conc := 1 + rng.Intn(3)
+			opts := oras.CopyOptions{CopyGraphOptions: oras.CopyGraphOptions{Concurrency: conc}}
+			_, err1 := oras.Copy(ctx, src, "srcref", fd, "v", opts)
+			first := "err"
+			if err1 == nil {
+				first = "ok"
+			}
+			_, err2 := oras.Copy(ctx, src, "srcref", dstT, "v", opts)
+			res := "ok"
+			if err2 != nil {
+				res = "retry-failed:" + strings.ReplaceAll(err2.Error(), " ", "_")
+			} else if got := presentSet(ctx, dstT, u); got != fmtSet(stored) {
+				res = "retry-incomplete(" + got + ")"
+			} else if d, rerr := dstT.Resolve(ctx, "v"); rerr != nil || u.IDOf(ocispec.Descriptor{MediaType: d.MediaType, Digest: d.Digest, Size: d.Size}) != root {
+				res = "retry-untagged"
+			}
+			verdict := "fails-or-complete"
+			if first != "err" || res != "ok" {
+				verdict = "first=" + first + ",retry=" + res
+			}
+			sc.Op(verdict, "cp cancelled at=bare-retry first=%s retry=%s", first, strings.SplitN(res, ":", 2)[0])
+			runs++
+			sc.Count("bare-retry:" + strings.SplitN(res, ":", 2)[0])
+		}
+	}
 	// C01 under cancellation: the context is cancelled before the call, or while the k-th
 	// source fetch is under way.  Whatever happens, a nil error means the whole graph is there
 	// and the reference is tagged.
@@ -1044,4 +1108,18 @@ func (s *instrRefTarget) PushReference(ctx context.Context, d ocispec.Descriptor
 	}
 	s.r.log("pushRef:"+ref, n)
 	return nil
+}
+
+// failOnceDst fails the first Push of one digest (before storing anything).
+type failOnceDst struct {
+	oras.Target
+	dig   digest.Digest
+	fired int32
+}
+
+func (f *failOnceDst) Push(ctx context.Context, d ocispec.Descriptor, r io.Reader) error {
+	if d.Digest == f.dig && atomic.CompareAndSwapInt32(&f.fired, 0, 1) {
+		return errInjected
+	}
+	return f.Target.Push(ctx, d, r)
 }
